@@ -226,3 +226,13 @@ def isinstance_term(xt, cls, ctab):
 
 def isinstance_any_term(xt, classes, ctab):
     return Or(*[isinstance_term(xt, c, ctab) for c in classes])
+
+
+def mseq(t):
+    """Sequence term used inside identity-membership (ismem) atoms: `seqof` is a macro containing ite, which may not occur in
+    E-matching patterns, so membership atoms are written over the declared alias `lseq` (lseq x = seqof x, spec/mod_ismem.smt2)."""
+    while t.startswith("(seqof (v_list ") and t.endswith("))") and _balanced(t[7:-1]) and _balanced(t[15:-2]):
+        t = t[15:-2]
+    if t.startswith("(seqof ") and t.endswith(")") and _balanced(t):
+        return "(lseq " + t[7:-1] + ")"
+    return t
